@@ -278,6 +278,48 @@ def history_independence(job):
     return n, len(sample), None
 
 
+def cross_layout_independence(gen):
+    """The same across the layouts of one generation (they share wrapper decoders and helpers): every sequence of three
+    payloads drawn from ALL status layouts - with the same announced stride for different record kinds where the
+    format has strides - decodes to what each decodes to on a brand-new registry."""
+    lays = [l for l in LAYOUTS if l.gen == gen]
+    sample = []
+    for lay in lays:
+        sample.append((lay, lay.wrap([lay.bases[0]])))
+        sample.append((lay, lay.wrap([lay.bases[2], lay.bases[1]])))
+        if gen == 5:
+            for stride in (10, 12):
+                if stride >= lay.size:
+                    sample.append((lay, lay.wrap([lay.bases[1], lay.bases[2]], stride=stride)))
+    # judged against the vendor reading at every step (a "brand-new registry" is no baseline here: state shared by
+    # classes or helper modules survives the re-creation of the decoder objects)
+    n = 0
+    if gen == 5:
+        # whatever is remembered per announced stride is remembered once per process: every ORDER in which the record
+        # kinds can meet a stride for the first time gets a stride of its own
+        for stride, order in zip(range(30, 30 + 6), itertools.permutations(lays)):
+            prev = []
+            for lay in order:
+                d = lay.wrap([lay.bases[2], lay.bases[1]], stride=stride)
+                n += 1
+                pr = judge(lay, d, {})
+                if pr:
+                    return n, len(sample), (f"at{gen}:cross-layout-history", f"{lay.name} payload {d.hex()} decoded after {prev}: {pr}")
+                prev.append((lay.name, d.hex()))
+    for seq in itertools.product(range(len(sample)), repeat=3):
+        if len({sample[i][0].name for i in seq}) < 2:
+            continue                    # single-layout sequences are history_independence's
+        _fresh_decode(gen)
+        for k, i in enumerate(seq):
+            lay, d = sample[i]
+            n += 1
+            pr = judge(lay, d, {})
+            if pr:
+                prev = [(sample[j][0].name, sample[j][1].hex()) for j in seq[:k]]
+                return n, len(sample), (f"at{gen}:cross-layout-history", f"{lay.name} payload {d.hex()} decoded after {prev}: {pr}")
+    return n, len(sample), None
+
+
 STR_ALPHABET = [b"", b"A", b"Living", b"Zone 1", "Café".encode(), "客厅".encode(), "\U0001f600".encode(),
                 b"12345678", b"1234567890ABCDEF", b"a\x00b", b"\xff\xfe", b"ER: FFFE"]
 
@@ -402,6 +444,11 @@ def run(tier, seed, part=None):
     for li, (n, k, viol) in enumerate(hres):
         total["evaluations"] = total.get("evaluations", 0) + n
         total["history_triples"] = total.get("history_triples", 0) + k ** 3
+        if viol:
+            chk.violation(viol[0], viol[1], {"kind": "input", "module": "pvmc.props.c05", "layout": "history", "message": viol[1]})
+    for gen, (n, k, viol) in zip((4, 5), explorer.pool().map(cross_layout_independence, [4, 5], chunksize=1)):
+        total["evaluations"] = total.get("evaluations", 0) + n
+        total["cross_layout_sample"] = total.get("cross_layout_sample", 0) + k
         if viol:
             chk.violation(viol[0], viol[1], {"kind": "input", "module": "pvmc.props.c05", "layout": "history", "message": viol[1]})
     for (gen, (stats, bad)) in zip((4, 5), explorer.pool().map(sweep_ext, [(4, tier), (5, tier)], chunksize=1)):
